@@ -340,8 +340,8 @@ if (
             container = eroded_container
 '''
 ERODE_LOOPS = [
-    # (passesCurrentPitch, stopsAtMaxPitch)
-    ("current", '''
+    # (name, loop body, the body breaks once current_pitch >= 1)
+    ("nobreak", '''
 eroded_container = container._erodeOverapproximate(
     maxErosion, HOLE_pitcharg
 )
@@ -349,7 +349,7 @@ if isinstance(eroded_container, VoxelRegion):
     eroded_container = eroded_container.mesh
 current_pitch = min(2 * current_pitch, 1)
 ''', False),
-    ("fixed", '''
+    ("break", '''
 eroded_container = container._erodeOverapproximate(
     maxErosion, HOLE_pitcharg
 )
@@ -422,6 +422,38 @@ def dilation(self, iterations, structure=None):
         structure = scipy.ndimage.generate_binary_structure(3, 3)
     HOLE_REST_compute
 '''
+# the computation itself: padded (e7c606cc) or on the grid as it is (the dilated set is clipped to the grid)
+DILATION_COMPUTE = [
+    (True, '''
+dense = trimesh.voxel.morphology._dense(self.voxelGrid.encoding, rank=3)
+transform = self.voxelGrid.transform
+if morphology_func is scipy.ndimage.binary_dilation:
+    dense = numpy.pad(dense, iterations, mode="constant", constant_values=False)
+    transform = transform @ translation_matrix([-iterations] * 3)
+new_encoding = trimesh.voxel.encoding.DenseEncoding(
+    morphology_func(dense, structure=structure, iterations=iterations)
+)
+if new_encoding.is_empty:
+    return nowhere
+new_voxel_grid = trimesh.voxel.VoxelGrid(new_encoding, transform=transform)
+return VoxelRegion(voxelGrid=new_voxel_grid)
+'''),
+    (False, '''
+new_encoding = trimesh.voxel.encoding.DenseEncoding(
+    morphology_func(
+        trimesh.voxel.morphology._dense(self.voxelGrid.encoding, rank=3),
+        structure=structure,
+        iterations=iterations,
+    )
+)
+if new_encoding.is_empty:
+    return nowhere
+new_voxel_grid = trimesh.voxel.VoxelGrid(
+    new_encoding, transform=self.voxelGrid.transform
+)
+return VoxelRegion(voxelGrid=new_voxel_grid)
+'''),
+]
 
 
 # --------------------------------------------------------------------------- extraction
@@ -539,9 +571,11 @@ def extract_loops(tree):
         except TemplateMismatch:
             pass
     expect(found is not None, "erode retry loop: unknown body")
-    arg, stops = found
+    arg, breaks = found
     expect(isinstance(arg, ast.Name) and arg.id in ("PRUNING_PITCH", "current_pitch"), "erode loop pitch argument")
-    out["erodeLoop"] = (arg.id == "current_pitch", stops)
+    # (passesCurrentPitch, calleeTotalAtMax, breaksAtMax): T_ERODE_OVER (checked in extract_counts) has no path
+    # that avoids the voxel->mesh conversion, so the callee is never total
+    out["erodeLoop"] = (arg.id == "current_pitch", False, breaks)
     fnv = get_def(tree, "pruneVisibility", PRUNING)
     helper = None
     for n in ast.walk(fnv):
@@ -558,7 +592,9 @@ def extract_loops(tree):
         raise TemplateMismatch(f"buffer_quantity = {ast.unparse(q)}")
     arg = hb["HOLE_pitcharg"]
     expect(isinstance(arg, ast.Name) and arg.id in ("PRUNING_PITCH", "current_pitch"), "buffer loop pitch argument")
-    out["bufferLoopPassesCurrent"] = arg.id == "current_pitch"
+    # T_BUFFERHELPER's loop has no break; T_BUFFER_OVER (checked in extract_counts) returns a BoxRegion when
+    # pitch >= 1, so the callee is total at the coarsest pitch
+    out["bufferLoop"] = (arg.id == "current_pitch", True, False)
     return out
 
 
@@ -599,20 +635,69 @@ def extract_counts(rtree):
     expect(isinstance(tb["HOLE_p"], ast.Name) and tb["HOLE_p"].id in ("target_pitch", "pitch"), "dilate divisor")
     out["dilateCount"] = (plus, tb["HOLE_p"].id == "target_pitch")
     fd = get_def(rtree, "VoxelRegion.dilation", REGIONS)
-    match_def(T_DILATION_HEAD, fd, "VoxelRegion.dilation")
+    bd = match_def(T_DILATION_HEAD, fd, "VoxelRegion.dilation")
+    pads = None
+    for flag, src in DILATION_COMPUTE:
+        try:
+            match_stmts(src, bd["HOLE_REST_compute"], "VoxelRegion.dilation computation")
+            pads = flag
+            break
+        except TemplateMismatch:
+            pass
+    expect(pads is not None, "VoxelRegion.dilation: unknown computation: "
+           + "; ".join(ast.unparse(x) for x in bd["HOLE_REST_compute"])[:300])
+    out["dilationPads"] = pads
     return out
 
 
-def extract():
+def _parts():
     _, ptree = load(PRUNING)
     _, rtree = load(RELATIONS)
     _, gtree = load(GEOMETRY)
     _, regtree = load(REGIONS)
-    d = {"dispatch": extract_dispatch(rtree)}
-    d.update(extract_rh(ptree, gtree))
-    d.update(extract_loops(ptree))
-    d.update(extract_counts(regtree))
+    return [("relations.py matcher", lambda: {"dispatch": extract_dispatch(rtree)}),
+            ("pruning.py relative headings", lambda: extract_rh(ptree, gtree)),
+            ("pruning.py amounts and retry loops", lambda: extract_loops(ptree)),
+            ("regions.py pass counts and dilation", lambda: extract_counts(regtree))]
+
+
+def extract():
+    d = {}
+    for _, f in _parts():
+        d.update(f())
     return d
+
+
+# the data of the pinned source (commit c802d98 of /verif against /repo's repaired tree): used for a part whose
+# template no longer matches, instead of a stale generated file
+PINNED = {
+    "relations.py matcher": {"dispatch": {
+        "swapOps": [("gt", "lt"), ("gtE", "ltE")], "boundOps": ["lt", "ltE", "eq"], "eqOps": ["eq"],
+        "absGuardFirst": True, "absPlain": (-1, 1), "absAdd": ((-1, -1), (1, -1)), "absSub": ((-1, 1), (1, 1))}},
+    "pruning.py relative headings": {"rh": (True, True, True), "guardInclusive": True, "overlapConj": True,
+                                     "overlapOps": ("gtE", "ltE")},
+    "pruning.py amounts and retry loops": {"pruningPitch": Fraction(3, 20), "erosionUsesDifference": True,
+                                           "erodeLoop": (True, False, True), "visibilityBufferIsSum": True,
+                                           "bufferLoop": (True, True, False)},
+    "regions.py pass counts and dilation": {"erodeCount": (3, 1, True), "erodeNegates": True,
+                                            "dilateCount": (1, True), "dilationPads": True},
+}
+
+
+def extract_partial():
+    """-> (data, [(part, error)]): parts whose template does not match fall back to PINNED."""
+    d, lost = {}, []
+    try:
+        parts = _parts()
+    except (TemplateMismatch, OSError, SyntaxError) as e:
+        return {k: v for part in PINNED.values() for k, v in part.items()}, [("all", str(e))]
+    for name, f in parts:
+        try:
+            d.update(f())
+        except TemplateMismatch as e:
+            d.update(PINNED[name])
+            lost.append((name, str(e)))
+    return d, lost
 
 
 # --------------------------------------------------------------------------- Lean output
@@ -664,13 +749,15 @@ def pruningPitch : Rat := {p.numerator}/{p.denominator}
 def erosionUsesDifference : Bool := {_b(d['erosionUsesDifference'])}
 
 /-- pruning.py pruneContainment: the `while eroded_container is None` loop -/
-def erodeLoop : RetryCfg := {{ passesCurrentPitch := {_b(d['erodeLoop'][0])}, stopsAtMaxPitch := {_b(d['erodeLoop'][1])} }}
+def erodeLoop : RetryCfg :=
+  {{ passesCurrentPitch := {_b(d['erodeLoop'][0])}, calleeTotalAtMax := {_b(d['erodeLoop'][1])}, breaksAtMax := {_b(d['erodeLoop'][2])} }}
 
 /-- pruning.py pruneVisibility.bufferHelper: `buffer_quantity = obj.radius + maxDistance` -/
 def visibilityBufferIsSum : Bool := {_b(d['visibilityBufferIsSum'])}
 
 /-- pruning.py bufferHelper loop (the callee has a BoxRegion fast path at pitch >= 1) -/
-def bufferLoop : RetryCfg := {{ passesCurrentPitch := {_b(d['bufferLoopPassesCurrent'])}, stopsAtMaxPitch := true }}
+def bufferLoop : RetryCfg :=
+  {{ passesCurrentPitch := {_b(d['bufferLoop'][0])}, calleeTotalAtMax := {_b(d['bufferLoop'][1])}, breaksAtMax := {_b(d['bufferLoop'][2])} }}
 
 /-- regions.py _erodeOverapproximate: `math.floor(maxErosion / math.hypot(*([p] * n))) - k` -/
 def erodeCount : ErodeCountCfg := {{ hypotDims := {ec[0]}, minus := {_i(ec[1])}, usesTargetPitch := {_b(ec[2])} }}
@@ -680,6 +767,9 @@ def erodeNegates : Bool := {_b(d['erodeNegates'])}
 
 /-- regions.py _bufferOverapproximate: `math.ceil(minBuffer / p) + k` -/
 def dilateCount : DilateCountCfg := {{ plus := {_i(dc[0])}, usesTargetPitch := {_b(dc[1])} }}
+
+/-- regions.py VoxelRegion.dilation pads the dense grid by the number of passes before dilating -/
+def dilationPads : Bool := {_b(d['dilationPads'])}
 
 end Scenic.Gen
 """
